@@ -250,8 +250,12 @@ func runIsoJob(job *ltsJob) *ltsRes {
 		return res
 	}
 	// positive control of the goroutine profile: the blocked connection is alive
-	if m, r, wr := connGoroutines(); m != 1 || r != 1 || wr != 1 {
-		res.Error = fmt.Sprintf("iso: goroutine profile with exactly one (blocked) connection: handleConn=%d readloop=%d writeloop=%d", m, r, wr)
+	// (polled: newConn starts the two loops in goroutines of their own, which may not have been scheduled
+	// yet when the owner is already in its connect hook / handler — on a loaded machine a single snapshot
+	// shows them missing)
+	var pm, pr, pw int
+	if !waitFor(func() bool { pm, pr, pw = connGoroutines(); return pm == 1 && pr == 1 && pw == 1 }, 2*time.Second) {
+		res.Error = fmt.Sprintf("iso: goroutine profile with exactly one (blocked) connection: handleConn=%d readloop=%d writeloop=%d", pm, pr, pw)
 		return res
 	}
 	res.count("iso.live-profile-ok")
